@@ -92,6 +92,10 @@ def _apply(m, op, args):
         ln, bits = args
         mask = np.array([(bits >> k) & 1 == 1 for k in range(ln)], dtype=bool)
         return m.subset(mask), None
+    if op == 13:
+        lo, hi, st = (None if int(a) == 1000000 else int(a) for a in args[:2]), None, int(args[2])
+        lo = list(lo)
+        return m.subset(slice(lo[0], lo[1], st)), None
     if op == 4:
         return m.head(int(args[0])), None
     if op == 5:
@@ -145,7 +149,8 @@ def gen_history(rng, n, length):
         if motif:
             op = motif.pop(0)
         else:
-            op = int(rng.choice([1, 2, 3, 4, 5, 6, 7, 8, 9, 10, 11, 12], p=[.08, .12, .08, .08, .08, .1, .1, .08, .06, .08, .08, .06]))
+            op = int(rng.choice([1, 2, 3, 4, 5, 6, 7, 8, 9, 10, 11, 12, 13],
+                                p=[.07, .1, .07, .07, .07, .09, .09, .07, .06, .07, .07, .06, .11]))
         if op == 1:
             args = [int(rng.integers(-2, cur + 2))]
         elif op == 2:
@@ -167,6 +172,10 @@ def gen_history(rng, n, length):
             fresh += cnt + 1
         elif op == 10:
             args = [int(rng.integers(1, 5))]
+        elif op == 13:
+            def bound():
+                return 1000000 if rng.integers(0, 3) == 0 else int(rng.integers(-cur - 2, cur + 3))
+            args = [bound(), bound(), int(rng.choice([-3, -2, -1, -1, 1, 2, 3]))]
         elif op == 11:
             args = [int(rng.integers(0, cur + 1)) for _ in range(int(rng.integers(0, 5)))]
         else:
@@ -223,6 +232,9 @@ def ref_history(n, ops):
                 if ln != len(cur):
                     raise IndexError
                 cur = [t for k, t in enumerate(cur) if (bits >> k) & 1]
+            elif op == 13:
+                lo, hi = (None if int(a) == 1000000 else int(a) for a in args[:2])
+                cur = cur[slice(lo, hi, int(args[2]))]
             elif op == 4:
                 cur = cur[:int(args[0])]
             elif op == 5:
